@@ -126,9 +126,34 @@ CANARIES = [
             },
             {
                 "file": V,
-                "old": "        self._write_txn._setup_version()\n        return self._write_txn\n",
-                "new": "        return self._write_txn\n",
+                "old": "            self._write_txn._setup_version()\n",
+                "new": "            pass\n",
             },
+        ],
+    },
+    {
+        "id": "C12-waiter-queue-shared-between-zones",
+        "prop": "C12",
+        "what": "the queue of waiting writers is one module-level deque instead of one per zone (a zone wakes another zone's waiter)",
+        "edits": [
+            {"file": V, "old": "Transaction = dns.zone.Transaction\n", "new": "Transaction = dns.zone.Transaction\n_WAITERS: collections.deque = collections.deque()\n"},
+            {"file": V, "old": "        self._write_waiters: collections.deque[threading.Event] = collections.deque()\n", "new": "        self._write_waiters = _WAITERS\n"},
+        ],
+    },
+    {
+        "id": "C12-end-read-prunes-below-other-readers",
+        "prop": "C12",
+        "what": "pruning keeps versions from the NEWEST open reader on (max instead of min): an older open reader's version is dropped",
+        "edits": [
+            {"file": V, "old": "            least_kept = min(\n", "new": "            least_kept = max(\n"},
+        ],
+    },
+    {
+        "id": "C12-policy-change-without-lock",
+        "prop": "C12",
+        "what": "set_pruning_policy prunes without taking the zone lock (races with a commit's own pruning)",
+        "edits": [
+            {"file": V, "old": "        with self._version_lock:\n            self._pruning_policy = policy\n            self._prune_versions_unlocked()\n", "new": "        self._pruning_policy = policy\n        self._prune_versions_unlocked()\n"},
         ],
     },
 ]
